@@ -9,9 +9,8 @@ use crate::rng::{mix, Rng};
 use crate::scriptgen::ScriptGen;
 use crate::shard::{write_replay, ShardCfg, ShardOut, ViolRec};
 use crate::shim::{new_graph, Graph};
-use sodg::{Hex, Label, Script};
+use sodg::{Hex, Script};
 use std::collections::BTreeMap;
-use std::str::FromStr;
 
 const FULL: u8 = O_KEYS | O_EDGES | O_TEXT | O_INSPECT;
 const LIGHT: u8 = O_KEYS | O_EDGES;
@@ -54,7 +53,9 @@ fn direct(g: &mut Box<dyn Graph>, cmds: &[Cmd]) -> Result<(), String> {
                 Cmd::Bind(a, b, l) => {
                     let v1 = res(g, a);
                     let v2 = res(g, b);
-                    let lab = Label::from_str(l).expect("harness: generated label text must parse");
+                    // the label the text stands for by the documented grammar (not the library's parser:
+                    // a defect of Label::from_str must show as a difference, not as a panic on this side)
+                    let lab = crate::ops::spec_label(l).expect("harness: generated label text must be canonical");
                     g.bind(v1, v2, lab);
                 }
                 Cmd::Put(i, d) => {
